@@ -153,6 +153,18 @@ func TestPipeLast(t *testing.T) {
 			body, kinds := genSpine(rt)
 			f := finals[jqgen.Uniform(rt, len(finals))]
 			q := body + " | " + f.text
+			if jqgen.Uniform(rt, 4) == 0 {
+				// the same call as the right operand of another operator at the tail
+				// of the program: NOT the last element of the pipe (seed C11-5: the
+				// "ends in repl/help/slurp" test followed every binary operator)
+				ops := []string{",", "+", "-", "//", "and", "or", "==", "*", "?//"}
+				op := ops[jqgen.Uniform(rt, len(ops))]
+				if op == "?//" {
+					q = body + " | . as [$p] ?// $p | $p + " + f.text
+				} else {
+					q = body + " " + op + " " + f.text
+				}
+			}
 			pq, err := gojq.Parse(q)
 			if err != nil {
 				harness.Count(harness.HashBytes([]byte(q)), false, "rejected-by-parser")
